@@ -26,6 +26,33 @@ def add_zips(rng, world, tops):
         world["nodes"].append({"path": d + "/" + name, "type": "file", "zip": {"members": members}})
 
 
+def count_rows(fmt, out, ncols):
+    """Number of rows in fselect's output of the given format; None when the stream is not well-formed."""
+    import csv, io, json
+    try:
+        if fmt == "json":
+            v = json.loads(out.decode("utf-8", "replace"))
+            return len(v) if isinstance(v, list) and all(isinstance(x, dict) for x in v) else None  # equal column names share one key
+        if fmt == "csv":
+            recs = list(csv.reader(io.StringIO(out.decode("utf-8", "replace"), newline="")))
+            return len(recs) if all(len(r) == ncols for r in recs) else None
+        if fmt == "html":
+            if not (out.startswith(b"<html><body><table>") and out.endswith(b"</table></body></html>")):
+                return None
+            return out.count(b"<tr>") if out.count(b"<tr>") == out.count(b"</tr>") else None
+        if fmt == "lines":
+            n = out.count(b"\n")
+            return n // ncols if n % ncols == 0 and (out.endswith(b"\n") or not out) else None
+        if fmt == "tabs":
+            lines = out.split(b"\n")
+            if lines[-1] != b"":
+                return None
+            return len(lines) - 1 if all(l.count(b"\t") == ncols - 1 for l in lines[:-1]) else None
+    except ValueError:
+        return None
+    return None
+
+
 def same_keys(got, want, keys):
     """Key sequences agree under the documented typing; a value that is not of the key's type
     (empty uid of an archive member) carries no constraint."""
@@ -87,7 +114,12 @@ class Check:
             cand = [n["path"] for n in world["nodes"] if "/" in n["path"] and n["type"] in ("file", "symlink", "fifo")]
             for p in rng.sample(cand, min(len(cand), rng.choice([1, 1, 2, 3]))):
                 faults.append({"call": "stat", "path": p, "errno": rng.choice(["ENOENT", "EACCES"])})
-        return {"world": world, "roots": roots, "keys": keys, "where": where, "plans": envs, "tz": "UTC", "faults": faults}
+        return {"world": world, "roots": roots, "keys": keys, "where": where, "plans": envs, "tz": "UTC", "faults": faults,
+                # the same limits through another output format (its separators, header and footer are written around the cut)
+                "fmt": rng.choice([None, None, "json", "csv", "html", "lines", "tabs"]),
+                # select-list shapes: a column that reaches the entry only through a later function argument, with or without `path` next to it
+                "xcol": rng.choice([None, None, None, "concat_ws('-', name, size)", "upper(name)", "concat('n=', name)", "length(name)", "concat_ws('/', 'p', ext, name)"]),
+                "nopath": rng.random() < 0.5}
 
     def sample_view(self, case):
         c = dict(case)
@@ -124,6 +156,11 @@ class Check:
             c = copy.deepcopy(case)
             del c["faults"][i]
             yield c
+        for k in ("xcol", "fmt"):
+            if case.get(k):
+                c = copy.deepcopy(case)
+                c[k] = None
+                yield c
         if case.get("only_n") is None:
             return
         if len(case["plans"]) > 1:
@@ -144,6 +181,8 @@ class Check:
         wherec = (" where " + case["where"]) if case["where"] else ""
         faults = [f for f in case.get("faults") or [] if f["path"] in nm]
         sel = ["path"] + [k["key"] for k in keys] + (["size"] if faults else [])
+        if case.get("xcol"):
+            sel = ([case["xcol"]] if case.get("nopath") and not keys and not faults else sel + [case["xcol"]])
         orderc = (" order by " + ", ".join(k["key"] + (" desc" if k["desc"] else "") for k in keys)) if keys else ""
         base = "select " + ", ".join(sel) + fromc + wherec + orderc
         shape = ("ordered" if keys else "streamed") + ("+archives" if any(r.get("arc") for r in case["roots"]) else "") + ("+lstat_fails" if faults else "")
@@ -159,6 +198,13 @@ class Check:
                 return viols
             rows0 = r0.rows(len(sel))
             M = len(rows0)
+            # "an absent limit means unlimited": the unlimited run has as many rows as the same FROM/WHERE counts
+            rc = sb.run(["select count(*)" + fromc + wherec + " into list"], plan=case["plans"][0], tz=case["tz"])
+            cnt = rc.rows(1)
+            if rc.sim or rc.status not in (0, 1) or len(cnt) != 1 or cnt[0][0] != str(M).encode():
+                viols.append(Violation(PROP, "C06.count", ["C06.count", "unlimited_differs_from_count", shape],
+                                       {"query": base, "rows": M, "count_query_says": [c[0].decode("utf-8", "replace") for c in cnt][:2], "outcome": rc.summary()}))
+                return viols
             full = collections.Counter(rows0)
             keyseq0 = [row[1:1 + len(keys)] for row in rows0]
             if keys and sorted_violation(keyseq0, keys):
@@ -193,6 +239,23 @@ class Check:
                                                    {"query": q, "N": N, "M": M, "env": ei, "got_keys": [[x.decode("utf-8", "replace") for x in k] for k in ks[:6]],
                                                     "want_keys": [[x.decode("utf-8", "replace") for x in k] for k in keyseq0[:min(len(rows), 6)]]}))
                             return viols
+            fmt = case.get("fmt")
+            plain = not any(c in n["path"] for n in world["nodes"] for c in "\n\t\r<") and not any("zip" in n for n in world["nodes"])
+            if fmt and plain and case.get("only_n") is None:
+                for N in sorted({1, 2, max(1, M - 1), M, M + 1}):
+                    if N < 1:
+                        continue
+                    q = base + " limit %d into %s" % (N, fmt)
+                    r = sb.run([q], plan=case["plans"][0], tz=case["tz"])
+                    if r.sim or r.status not in (0, 1) or r.signal is not None:
+                        viols.append(Violation(PROP, "C06.run", ["C06.run", "abnormal_end", shape], {"query": q, "outcome": r.summary()}))
+                        return viols
+                    got_n = count_rows(fmt, r.stdout, len(sel))
+                    if got_n != min(N, M):
+                        viols.append(Violation(PROP, "C06.count", ["C06.count", "format:" + fmt, shape],
+                                               {"query": q, "N": N, "M": M, "rows": got_n, "stdout": r.stdout[:200].decode("utf-8", "replace")}))
+                        return viols
+                    ctx.metric("format_limit_runs")
             if len(ctx.samples) < 2:
                 ctx.samples.append({"argv": [base + " limit N into list"], "M": M, "N_values": ns[:5] + ["..."], "environments": len(case["plans"])})
         return viols
